@@ -9,17 +9,20 @@
    The two encoding/json calls of the encoder (NetworkConfig, Processors state) are oracles:
    Section-style arguments [json_enc], [nc_print] with the reader-side parser [nc_parse];
    the hypotheses say what is assumed of them. *)
-From RP Require Import Lib.Base Lib.Strings Model.MsgIn Model.EncIn Model.DecIn Spec.DenoteIn Spec.GrammarIn
-  Proofs.InBits Proofs.InEncLines Proofs.InEncText Proofs.InEnc Proofs.InSeq Proofs.InTotal Proofs.StringsProofs.
+From RP Require Import Lib.Base Lib.Strings Model.Gfx Model.MsgIn Model.EncIn Model.DecIn Spec.DenoteIn Spec.GrammarIn
+  Proofs.InBits Proofs.InEncLines Proofs.InEncText Proofs.InEncGfx Proofs.InEnc Proofs.InRound Proofs.InTotal Proofs.StringsProofs.
 
-(* MAIN THEOREM, _partial: graphics lines excluded (messages whose states carry an HWCGfx
-   sub-message are outside [no_gfx_msg]; the HWCg#/HWCgRGB#/HWCgGray# chunking is proved for
-   the decoder side in C05).  Everything else of the property's quantifier is inside:
-   flow words, all 29 command fields, mode / colour (index and RGB, quantised) / extended
-   value / the 21 text fields with the normal form / raw-ADC, registers, any number of ids
-   per state (fan-out), any number of states, registers and messages (submission order), from
-   ANY start panel and ANY tracker state.  Also: the encoder does not panic and every line it
-   writes is accepted by the reference reader. *)
+(* MAIN THEOREM.  For every list of ASCII-representable messages ([rep_msg]: flow words, all 29
+   command fields, mode / colour (index and RGB, quantised) / extended value / the 21 text
+   fields with the normal form / images of any length >= 1 in the three formats with and
+   without offset / raw ADC, registers; any number of ids per state (fan-out), any number of
+   states, registers and messages (submission order)): the encoder does not panic, every line
+   it writes is accepted by the independent reference reader, and reading the lines from ANY
+   start panel and ANY tracker state gives exactly the panel the messages describe.
+   Named _partial only for what goes through encoding/json (oracle arguments with the two
+   stated hypotheses): the NetworkConfig argument of SetNetworkConfig is identified with what
+   the JSON oracle pair prints / parses, and states carrying Processors (JSON-only, no ASCII
+   form) are outside [rep_msg], as DESIGN C01 fixes it. *)
 Theorem c01_enc_in_sound_partial :
   forall (json_state : list Z -> HWCState) (json_msgs : list Z -> list (option InboundMessage))
          (nc_parse : list Z -> option (list Z)) (json_enc : HWCState -> list Z) (nc_print : list Z -> list Z)
@@ -27,12 +30,23 @@ Theorem c01_enc_in_sound_partial :
     (forall j, one_line_trimmed j = true -> strip_line_breaks j = j /\ single_line j = true) ->
     (forall n, netcfg_ok n = true -> nc_parse (nc_print n) = Some n /\ single_line (nc_print n) = true) ->
     forall ms p x,
-      forallb (rep_msg one_line_trimmed netcfg_ok) ms = true -> forallb no_gfx_msg ms = true ->
+      forallb (rep_msg one_line_trimmed netcfg_ok) ms = true ->
       exists ls, enc_in json_enc nc_print ms = Ok ls /\
-                 Forall (fun l => effs_line json_state json_msgs nc_parse l = true) ls /\
+                 Forall (fun l => wf_in_line json_state json_msgs nc_parse l = true) ls /\
                  fst (sem_in_lines json_state json_msgs nc_parse (p, x) ls) = run_msgs p ms.
-Proof. exact enc_in_sound_nogfx. Qed.
+Proof. exact enc_in_sound. Qed.
 Print Assumptions c01_enc_in_sound_partial.
+
+(* graphics: the lines written for one image and one target id, read from any panel and any
+   tracker state (a transfer in progress is dropped), show exactly that image there and leave
+   the tracker idle - every image length >= 1 (every residue modulo 170), three formats,
+   with / without offset (offset 0,0 is an offset) *)
+Theorem c01_graphics_lines :
+  forall json_state json_msgs nc_parse g id, rep_gfx g = true -> is_u32 id = true -> forall p x,
+    sem_in_lines json_state json_msgs nc_parse (p, x) (gfx_lines (to_gfx g) id)
+    = (apply_eff p (EState [id] (UGfx (den_image g))), None).
+Proof. exact gfx_run. Qed.
+Print Assumptions c01_graphics_lines.
 
 (* per-field packing, bounds stated: all 8 x 2 x 16 modes, all 16 x 4096 extended values *)
 Theorem c01_pack_mode : forall m, rep_mode m = true ->
@@ -62,7 +76,7 @@ Theorem c01_text_fields : forall t, rep_text t = true -> rd_text (text_slots t) 
 Proof. exact text_read. Qed.
 Print Assumptions c01_text_fields.
 
-(* round trip through the library's own decoder (C01 o C02), same exclusions *)
+(* round trip through the library's own decoder (C01 o C02), graphics included *)
 Theorem c01_dec_enc_partial :
   forall (json_state : list Z -> HWCState) (json_msgs : list Z -> list (option InboundMessage))
          (nc_parse : list Z -> option (list Z)) (json_enc : HWCState -> list Z) (nc_print : list Z -> list Z)
@@ -70,10 +84,10 @@ Theorem c01_dec_enc_partial :
     (forall j, one_line_trimmed j = true -> strip_line_breaks j = j /\ single_line j = true) ->
     (forall n, netcfg_ok n = true -> nc_parse (nc_print n) = Some n /\ single_line (nc_print n) = true) ->
     forall ms p,
-      forallb (rep_msg one_line_trimmed netcfg_ok) ms = true -> forallb no_gfx_msg ms = true ->
+      forallb (rep_msg one_line_trimmed netcfg_ok) ms = true ->
       exists ls ms', enc_in json_enc nc_print ms = Ok ls /\ dec_in json_state json_msgs nc_parse ls = Ok ms' /\
                      run_msgs p ms' = run_msgs p ms.
-Proof. exact dec_enc_in_nogfx. Qed.
+Proof. exact dec_enc_in. Qed.
 Print Assumptions c01_dec_enc_partial.
 
 From Coq Require Import String.
@@ -88,13 +102,14 @@ Definition c01_example_msg : InboundMessage :=
                  (Some (5, 7)) None None None None None None None (Some 3000) None None None None))
     [Some (mkState [4; 9] (Some (mkMode 4 true 3)) (Some (mkColor (Some (mkRGB 255 100 0)) None)) None
              (Some (mkText 42 1 2 0 (Sexp.str "Vol") true (Sexp.str "dB") [] 7 0 None None false None None false))
-             None None None)]
+             None None None);
+     Some (mkState [7] None None None None (Some (mkHGfx 2 8 2 true 0 0 [1; 2; 3] false)) None None)]
     [Some (mkReg 1 (Sexp.str "12") 9)].
 Example c01_nonvacuous :
   forallb (rep_msg (fun _ => true) (fun _ => true)) [c01_example_msg] = true /\
-  forallb no_gfx_msg [c01_example_msg] = true /\
   enc_in (fun _ => []) (fun n => n) [c01_example_msg] =
     Ok (map Sexp.str ["ack"; "list"; "PanelBrightness=5,7"; "HeartBeatTimer=3000";
                       "HWC#4=804"; "HWCc#4=244"; "HWCt#4=42|1|2|Vol||dB||7";
-                      "HWC#9=804"; "HWCc#9=244"; "HWCt#9=42|1|2|Vol||dB||7"; "Flag#12=9"]).
+                      "HWC#9=804"; "HWCc#9=244"; "HWCt#9=42|1|2|Vol||dB||7";
+                      "HWCgGray#7=0/0,8x2,0,0:AQID"; "Flag#12=9"]).
 Proof. vm_compute. repeat split; reflexivity. Qed.
